@@ -139,6 +139,18 @@ def run(rep, tier, rng):
                         nontrivial=n >= 2,
                         sample={"keys": n, "minimum": mn, "maximum": mx, "threshold": th, "terms": terms, "output": o[1] if o[0] == "ok" else o[0]}
                         if n == 4 and mn == 1 and mx == 2 and th == 0.125 else None)
+            # normalize=True normalises the queried vector only (the terms keep their length): digits compared for vectors
+            # whose norm is a power of two
+            if n >= 1:
+                for raw, normed in (([2.0] + [0.0] * (d - 1), [4] + [0] * (d - 1)), ([1.0] * 4 + [0.0] * (d - 4), [2] * 4 + [0] * (d - 4)),
+                                    ([0.0, -8.0] + [0.0] * (d - 2), [0, -4] + [0] * (d - 2))):
+                    for (mn, mx, th) in ((n, None, None), (None, None, 0.125), (1, 2, 0)):
+                        o = c.observe(lambda: text(SemanticPointer(np.array(raw)), voc, minimum_count=mn, maximum_count=mx, threshold=th, normalize=True))
+                        cth = "None" if th is None else f"(Some {c.z(int(th * (1 << k)))})"
+                        add(f"check_text {k} {c.opt(mn, str)} {c.opt(mx, str)} {cth} {c.zlist(normed)} {c.zmat(ivecs)} "
+                            f"{c.lst([c.s(t) for t in names[:n]])} {sobs(o, c.s)}",
+                            {"op": "text-normalize", "n": n, "min": mn, "max": mx, "threshold": th, "terms": None, "v": raw, "vectors": ivecs, "obs": repr(o)[:200]},
+                            ("text-normalize", n, mn, mx, th, tuple(raw), tuple(map(tuple, ivecs))), nontrivial=n >= 2)
             # ordering property with normalize=True (digits are not compared)
             if n >= 2:
                 o = c.observe(lambda: text(vptr, voc, minimum_count=n, threshold=None, normalize=True))
